@@ -40,6 +40,12 @@ CHECKS = {
  "C14": dict(engine="irsim", category="exploration", design="DESIGN.md section 6 (C14)", technique="deterministic simulation: seeded pass schedules with faults injected at the ONNX C-API boundary and in lazy-tensor serialization; contract oracles after every pass",
    text="Generated checker-valid (and deliberately noisy) models x schedules of the 19 exported passes applied singly, to fixpoint, in Sequential / nested PassManager, or functionalized, with faults armed at onnx.checker.check_model / onnx.shape_inference.infer_shapes (ValidationError, RuntimeError, MemoryError) or a lazy initializer that raises during serialization; after every pass: identity rule, modified=False implies byte-identical serialization, bounded convergence and stable fixpoint, C01 invariants, order and serializability preserved, analysis-only passes leave the canonical snapshot exactly unchanged on success and failure.",
    note="the real ONNX C API runs unless a fault is armed; passes that raise are counted, not flagged."),
+ "C03": dict(engine="irsim", category="exploration", design="DESIGN.md section 6 (C03)", technique="deterministic simulation degenerated to one client: serialization as an observer operation inside seeded edit histories; structural round-trip comparison",
+   text="Scoped claim (the `histories` half of the quantifier). to_proto is inserted at arbitrary points of Engine A histories (no side effects, also when it raises; two calls give equal protos) and applied to generated well-formed models after seeded public-API edits (unsorted order, dropped types/shapes, empty-named optional outputs, None inputs, renames, node add/remove, metadata, attributes, five tensor implementations, symbolic/denoted shapes, sequence/optional types, device annotations); from_proto(to_proto(m)) is compared with m structurally (identities as traversal numbers).",
+   note="breadth over inputs is limited to what the generators produce; normalisations: None=='' for names/doc strings, trailing unnamed outputs trimmed, value-info generated for initializers, shape without type unrepresentable."),
+ "C17": dict(engine="iosim", category="exploration", design="DESIGN.md section 5 (C17)", technique="deterministic simulation of storage corruption on the load path: seeded byte-level and field-level damage of stored models, I/O seam and audit hook as file-access oracle",
+   text="Generated valid models are serialized and damaged (bit flips, overwrites, truncation, duplicated/deleted/spliced spans; 26 field-level operators on the parsed proto); variants the protobuf parser rejects are discarded; survivors go to from_proto (a third through a file and onnx_ir.load) under a wall cap: must raise an Exception or return an IR that passes the C01 invariant checker and whose serialization raises or is a fix point; the FS seam and sys.addaudithook must record no file access during deserialization and tensor inspection.",
+   note="fix point is compared modulo the documented value-info-for-initializers normalisation; accesses under the interpreter prefix, /repo and /verif are ignored."),
 }
 NA = [
  ("C02", "pure function of the input proto: no schedule, clock, fault, crash point or history for a simulator to vary (DESIGN.md section 7)"),
